@@ -1,5 +1,5 @@
 SPECIFICATION TSpec
 INVARIANTS SelValid HeapExact RegSound ExitedQuiet
-PROPERTIES Isolation PrecIndependent SelSticky SelMoves EvalPure FatalIntact FatalOnlyIfMisuse NoUseBeforeInit ReinitFresh SetThenGet
+PROPERTIES Isolation PrecIndependent SelSticky SelMoves EvalPure FatalIntact FatalOnlyIfMisuse NoUseBeforeInit ReinitFresh SetThenGet HeapStable
 POSTCONDITION Accepted
 CHECK_DEADLOCK FALSE
